@@ -30,7 +30,8 @@ type result struct {
 	Token        string `json:"token,omitempty"`
 	Desig        bool   `json:"designated,omitempty"`
 	Holder       bool   `json:"holder,omitempty"`
-	Paired       bool   `json:"paired,omitempty"` // sent while another request was outstanding on the same (multiplexed) connection
+	Survivor     bool   `json:"survivor,omitempty"` // hot upgrade: the client that keeps its one connection beyond the old process's exit
+	Paired       bool   `json:"paired,omitempty"`   // sent while another request was outstanding on the same (multiplexed) connection
 	KeepAlive    bool   `json:"keepalive"`
 	NewConn      bool   `json:"new_conn"`       // first request on its connection
 	ConnAfterSig bool   `json:"conn_after_sig"` // its connection was opened after the signal was sent
